@@ -38,7 +38,7 @@ PROPS = {
                 thorough=["book1", "fee", "feebig", "frac", "marker", "mig", "auth", "envchg", "book2", "conv2"],
                 drive=[("mixed", 2, 25, 250), ("reverse", 0, 15, 250), ("migrate", 0, 10, 250)]),
     "C07": dict(quick=["admit", "feearith", "book2", "auth", "envchg"], thorough=["admit", "feearith", "book2", "auth", "envchg", "book1", "fee"], drive=[("create", 2, 30, 250), ("fee", 0, 10, 250)]),
-    "C08": dict(quick=["book1", "marker", "admit", "mig", "conv2"], thorough=["book1", "marker", "admit", "mig", "conv2", "frac", "envchg"], drive=[("conv", 2, 35, 250)]),
+    "C08": dict(quick=["book1", "marker", "admit", "mig", "conv2", "auth"], thorough=["book1", "marker", "admit", "mig", "conv2", "auth", "frac", "envchg"], drive=[("conv", 2, 35, 250)]),
     "C09": dict(quick=["fee", "feebig", "feearith", "frac"], thorough=["fee", "feebig", "feearith", "book1", "frac", "mig"],
                 drive=[("fee", 2, 30, 250), ("match", 0, 10, 250)]),
     "C10": dict(quick=["marker", "envchg", "conv2"], thorough=["marker", "envchg", "conv2", "admit"], drive=[("env", 3, 25, 250), ("mixed", 1, 15, 250), ("conv", 0, 15, 250)]),
